@@ -34,6 +34,10 @@ func (c *Ctx) funcLabel(fr *Frame) string {
 }
 
 func (c *Ctx) oblige(st *State, fr *Frame, instr ssa.Instruction, kind, desc, goal string, clause *Clause, tags []string) {
+	if c.rejectClause != nil && kind != "rejects" {
+		// a rejects pass proves one thing only: no normal return from the misuse state
+		return
+	}
 	trivial := false
 	if goal == "true" {
 		// trivially true obligations are skipped, except frame obligations: "this call/store is
